@@ -249,5 +249,11 @@ def run(ctx, repo, tier):
         c05_analyse(ctx, repo, prop)
     # ------------------------------------------------------------ inherited: folded rotation block
     check_fold(ctx, repo, "C14")
+    # ------------------------------------------------------------ inherited: the SQRA kernel itself (C01) on matrices as loaded from .npz
+    # (detailed balance w.r.t. V*exp(-E/RT) and zero row sums are properties of that formula; an algebraically equal rewrite that
+    #  exponentiates single-cell energies is rejected there because it is not evaluable for large |E|)
+    from ..driver import PrefixCtx
+    from .C01 import run_context as c01_context
+    c01_context(PrefixCtx(ctx, "C01.", "C14.sqra."), repo, tier, "coo")
     ctx.require_instances("FLOW", 10, "wiring obligations")
     ctx.trust(*META["trusted"])
